@@ -569,3 +569,130 @@ def replay_blob(w):
     except Exception as ex:
         return {'reproduced': None, 'line': 'native replay unavailable: %s' % ex}
     return {'reproduced': True if line.startswith('REPLAY panic') else (False if line.startswith('REPLAY ok') else None), 'line': line}
+
+
+# ================================================================================================ fixed-width CHAR block iterator
+def _first_true(vm, m, callee, args, with_item):
+    """itertools find_position / Iterator::position: one fork per index of the first element satisfying the predicate."""
+    from .natives import it_items, call_closure, some, NONE
+    from .vm import NativeFork, Tup
+    from z3 import And, Not
+    items, pan = it_items(vm, m, args[0])
+    preds = []
+    for c, x in items:
+        v, p = call_closure(vm, m, args[1], [x] if not with_item else [Ref(Cell(x))])
+        preds.append(bool_(v))
+    alts = []
+    for k in range(len(preds) + 1):
+        cond = And([Not(preds[i]) for i in range(k)] + ([preds[k]] if k < len(preds) else []))
+        if k < len(preds):
+            val = (lambda m2, a2, k=k: some(Tup([mk_int(k, 'usize'), items[k][1]]) if with_item else mk_int(k, 'usize')))
+        else:
+            val = (lambda m2, a2: NONE())
+        alts.append((cond, val))
+    raise NativeFork(alts)
+
+
+@native(r' as (itertools::)?Itertools>::find_position::<', 'Itertools::find_position(pred): Some((index, item)) of the first item satisfying pred; one fork per index')
+def _find_position(vm, m, callee, args):
+    return _first_true(vm, m, callee, args, True)
+
+
+@native(r' as Iterator>::position::<', 'Iterator::position(pred): Some(index) of the first item satisfying pred; one fork per index')
+def _position(vm, m, callee, args):
+    return _first_true(vm, m, callee, args, False)
+
+
+@native(r'^(std::str::|core::str::)?from_utf8$', 'str::from_utf8 on ASCII bytes: Ok(the same bytes)')
+def _from_utf8(vm, m, callee, args):
+    return Enum('Result', 'Ok', [args[0]])
+
+
+@crate_contract(r'^<BytesArrayBuilder<str> as array::ArrayBuilder>::push$', 'StringArrayBuilder::push(Some(s)) appends the string (variable-width array)')
+def _str_push(vm, m, callee, args):
+    return _blob_push(vm, m, callee, args)
+
+
+def run_char(rep, thorough):
+    """PlainCharBlockIterator (fixed-width CHAR(w) blocks: values padded with NUL): values of concrete length 0..w with symbolic
+    non-NUL ASCII content, every start row and batch size; each value is read back exactly (a full-width value included)."""
+    from z3 import And, ULT
+    t0 = time.time()
+    try:
+        vm = make_vm(True)
+        pat = r'^char_block_iterator::<impl at src/storage/secondary/block/char_block_iterator\.rs:\d+:\d+: \d+:\d+>::%s$'
+        f_next = find_fn(vm.prog, pat % 'next_batch_non_null')
+        f_new = find_fn(vm.prog, pat % 'new')
+    except (Inconclusive, Unsupported, MirSyntax) as ex:
+        rep.fail_inconclusive('PlainCharBlockIterator: %s' % ex)
+        return
+    w = 2
+    shapes = [(2, 1, 0), (2, 2, 1), (1, 2, 2), (0, 2, 0)] if not thorough else list(itertools.product((0, 1, 2), repeat=3))
+    n_ob = 0
+    for lens in shapes:
+        for start, batch in ((0, 3), (0, 1), (1, 2), (2, 1), (1, 1)):
+            desc = 'PlainCharBlockIterator (width %d) over values of %s bytes: from row %d read %d' % (w, list(lens), start, batch)
+            data, block, pre = [], [], []
+            for i, l in enumerate(lens):
+                bs = [BitVec('c%d_%d' % (i, j), 8) for j in range(l)]
+                data.append(bs)
+                pre += [And(b != 0, ULT(b, 128)) for b in bs]
+                block += [BV(b, False) for b in bs] + [BV(BitVecVal_(0), False) for _ in range(w - l)]
+            try:
+                outs = vm.run(f_new, [Seq(block, 'bytes'), mk_int(3, 'usize'), mk_int(w, 'usize')], pc=tuple(pre))
+                it = outs[0].value
+                it.fields[2] = mk_int(start, 'usize') if concrete_int(it.fields[2]) == 0 else it.fields[2]
+                bld = Ref(Cell(Struct('BytesArrayBuilder', [Seq([])])))
+                outs = vm.run(f_next, [Ref(Cell(it)), Enum('Option', 'Some', [mk_int(batch, 'usize')]), bld], pc=tuple(outs[0].pc))
+            except (Unsupported, MirSyntax, KeyError, IndexError, AttributeError, TypeError) as ex:
+                rep.fail_inconclusive('%s: %s: %s' % (desc, type(ex).__name__, str(ex)[:300]))
+                continue
+            for o in outs:
+                st0, _ = satisfiable(list(o.pc))
+                if st0 == 'unsat':
+                    continue
+                n_ob += 1
+                rep.cov['programs'] += 1
+                problem, claims = None, []
+                if o.kind != 'ret':
+                    problem = 'panics: %s' % (o.value,)
+                else:
+                    got = vm.deref_value(vm.deref_value(o.args[2]).fields[0]).items
+                    want = data[start:start + batch]
+                    if concrete_int(o.value) != len(want) or len(got) != len(want):
+                        problem = 'returned %s rows, expected %d' % (concrete_int(o.value), len(want))
+                    else:
+                        for j, (g, wv) in enumerate(zip(got, want)):
+                            if g is None or len(g.items) != len(wv):
+                                problem = 'row %d has %s bytes, expected %d' % (start + j, None if g is None else len(g.items), len(wv))
+                                break
+                            claims += [vm.deref_value(x).v == b for x, b in zip(g.items, wv)]
+                if problem is None:
+                    st, m = check(list(o.pc), And(claims) if claims else BoolVal(True))
+                    if st == 'unsat':
+                        rep.obligation(True)
+                        continue
+                    if st == 'unknown':
+                        rep.obligation(False)
+                        rep.fail_inconclusive('solver unknown: ' + desc)
+                        continue
+                    problem = 'content differs'
+                wit = {'lens': list(lens), 'start': start, 'batch': batch, 'width': w, 'problem': problem}
+                rp = replay_char(wit)
+                what = '%s: %s; native replay: %s' % (desc, problem, rp.get('line'))
+                out = rep.counterexample('char-iterator:%s' % ('full-width-value' if any(l == w for l in lens) else 'other'), what[:500], {'desc': desc, 'witness': wit, 'replay': rp}, rp['reproduced'])
+                rep.obligation(out == 'known')
+        rep.sample({'obligation': 'PlainCharBlockIterator (width %d) over values of %s bytes' % (w, list(lens)), 'verdict': 'every start row / batch reads the values back exactly'}, cap=16)
+    rep.solver(time.time() - t0, n_ob)
+    rep.cov['functions_encoded'] = list(rep.cov.get('functions_encoded', [])) + ['PlainCharBlockIterator::{new, next_batch_non_null} (from MIR)']
+    if isinstance(rep.cov.get('bounds'), dict):
+        rep.cov['bounds']['fixed-width char block iterator'] = 'CHAR(2) blocks of three values with lengths %s, non-NUL ASCII content symbolic, five start / batch combinations' % ('in {0,1,2}^3' if thorough else str(shapes))
+
+
+def replay_char(wit):
+    from kani import run as krun
+    try:
+        line = krun.native_replay('c06_char_replay', [wit['lens'], [wit['width']], [wit['start']], [wit['batch']]])
+    except Exception as ex:
+        return {'reproduced': None, 'line': 'native replay unavailable: %s' % ex}
+    return {'reproduced': True if line.startswith('REPLAY panic') else (False if line.startswith('REPLAY ok') else None), 'line': line}
